@@ -561,6 +561,13 @@ func writeEvidence(id string, cfg propCfg, tier string, seed int64, t *workerSta
 	}
 	hit := 0
 	var never []string
+	var libSites []string
+	for _, l := range allSites {
+		if !strings.HasPrefix(l, "main/") { // generator programs (types/gen, join/gen) are not part of the library
+			libSites = append(libSites, l)
+		}
+	}
+	allSites = libSites
 	for _, l := range allSites {
 		key := strings.Fields(l)[0]
 		if t.CaseHits[key] > 0 {
